@@ -186,9 +186,46 @@ class MyEvent(icalendar.Event):
 ENTRIES = {"Calendar": Calendar, "subclass": MyCalendar, "Component": icalendar.cal.Component, "event-subclass": MyEvent}
 
 
+def _line_level(case, base):
+    """the same relation one level down: a single content line read by Contentline.from_ical (lenient and strict) does not depend on
+    where it is folded, on LF/CRLF folds, on space/tab, or on str/bytes"""
+    from icalendar.parser import Contentline
+    try:
+        text = base.decode("utf-8-sig")
+    except UnicodeDecodeError:
+        return []
+    fails = []
+    lines = [ln for ln in split_lines(text) if ";" in ln.split(":")[0] and len(ln) > 8][:5]
+    cuts = (case["rewrites"].get("refold") or [[3]])[0] or [3]
+
+    def outcome(data, strict):
+        try:
+            n, p_, v = Contentline.from_ical(data, strict=strict).parts()
+            return ("ok", str(n), sorted((str(k), [str(x) for x in val] if isinstance(val, list) else str(val)) for k, val in p_.items()), str(v))
+        except ValueError as e:
+            return ("ValueError",)
+    for ln in lines:
+        for strict in (False, True):
+            ref = outcome(ln, strict)
+            for ws, eol, as_bytes in ((" ", "\r\n", False), ("\t", "\r\n", True), (" ", "\n", False), ("\t", "\n", True)):
+                folded = M.fold_line(ln, [c for c in cuts if 0 < c < len(ln)] or [1], ws)
+                if eol == "\n":
+                    folded = folded.replace("\r\n", "\n")
+                got = outcome(folded.encode("utf-8") if as_bytes else folded, strict)
+                if got != ref:
+                    fails.append(Failure("C09.invariant", f"single-line-differs/strict={strict}", f"{ln[:100]!r} unfolded -> {ref!r}; folded {folded[:60]!r} -> {got!r}"[:600]))
+                    return fails
+    return fails
+
+
 def judge(case):
     fails = []
     base = base_text(case)
+    if case["base"] == "tree" or len(base) < 20000:
+        try:
+            fails += _line_level(case, base)
+        except Exception as e:  # noqa: BLE001
+            fails.append(Failure("C09.invariant", "single-line-check-raises/" + exc_signature(e), repr(e)[:200]))
     Calendar = ENTRIES[case.get("entry", "Calendar")]     # noqa: N806 - the entry point of this case
     if re.search(rb"\r(?!\n)", base):
         return []      # a bare CR is data, not a line ending: such a base (one fixture uses CR CR LF) is outside 'LF instead of CRLF'
